@@ -100,6 +100,36 @@ Proof.
     try (destruct n; reflexivity).
 Qed.
 
+(* any(value is v for v in <declared members>): identity with a declared member; in this universe (no
+   mix-in: a member equals itself only) it is what `value in <declared members>` decides with == *)
+Lemma mapM_is_member cls x (ms : list (pystr * pyval)) :
+  mapM (py_is_member x) (members_vals cls ms) =
+  Ok (map (fun m => match x with PEnum c' n' _ => pystr_eqb c' cls && pystr_eqb n' (fst m) | _ => false end) ms).
+Proof.
+  induction ms as [|[k y] t IH]; [reflexivity|].
+  cbn [members_vals map mapM py_is_member bind fst snd].
+  change (map (fun m => PEnum cls (fst m) (snd m)) t) with (members_vals cls t). rewrite IH. reflexivity.
+Qed.
+
+Lemma any_is_enum cls c n x (ms : list (pystr * pyval)) :
+  py_any_is (PEnum c n x) (PList (members_vals cls ms)) = Ok (pystr_eqb c cls && alist_has ms n).
+Proof.
+  unfold py_any_is. rewrite mapM_is_member. cbn [bind]. f_equal.
+  unfold alist_has. induction ms as [|[k y] t IH].
+  - cbn. rewrite andb_false_r. reflexivity.
+  - cbn [map existsb fst alist_get]. rewrite IH. rewrite (pystr_eqb_sym n k).
+    destruct (pystr_eqb c cls), (pystr_eqb k n); reflexivity.
+Qed.
+
+Lemma any_is_nonenum v cls (ms : list (pystr * pyval)) :
+  match v with PEnum _ _ _ => false | _ => true end = true ->
+  py_any_is v (PList (members_vals cls ms)) = Ok false.
+Proof.
+  intro Hv. unfold py_any_is. rewrite mapM_is_member. cbn [bind]. f_equal.
+  induction ms as [|m t IH]; [reflexivity|]. cbn [map existsb]. rewrite IH.
+  destruct v; try discriminate Hv; reflexivity.
+Qed.
+
 Lemma lookup_member cls (allm : list (pystr * pyval)) n :
   enum_lookup (members_vals cls allm) n =
   match alist_get allm n with Some x => Ok (PEnum cls n x) | None => Raise KeyError end.
@@ -134,18 +164,19 @@ Section Bridge.
                 if c then @Raise unit ValueError else Raise ValueError) = Raise ValueError).
     { intros A k. cbn [py_len bind py_lt as_num zint].
       destruct (num_ltb _ _); reflexivity. }
-    (* only a str is hashed (a str is hashable); every other value skips the set of names *)
+    (* only a str that is not itself a member is hashed (a str is hashable); every other value skips the set of
+       names; a member is accepted by identity with a declared member *)
     destruct v as [ | b | n | s | l | l | l | f l | kv | c n x | c a | t r ];
       try (change (py_isinstance _ [K_str]) with false; cbn [py_and py_not negb bind];
-           rewrite not_in_members by reflexivity; cbn [negb bind];
+           rewrite any_is_nonenum by reflexivity; cbn [negb bind];
            exact (Htail unit (Ok tt))).
     - (* PStr *)
-      change (py_isinstance (PStr s) [K_str]) with true. cbn [py_and py_not bind py_hashable'].
+      change (py_isinstance (PStr s) [K_str]) with true. cbn [py_is_enum_member py_and py_not negb bind py_hashable'].
       rewrite in_names_str. destruct (alist_has members s); cbn [negb bind]; [reflexivity|].
-      rewrite not_in_members by reflexivity. cbn [negb bind]. exact (Htail unit (Ok tt)).
+      rewrite any_is_nonenum by reflexivity. cbn [negb bind]. exact (Htail unit (Ok tt)).
     - (* PEnum *)
       change (py_isinstance (PEnum c n x) [K_str]) with false. cbn [py_and py_not negb bind].
-      rewrite in_members_enum.
+      rewrite any_is_enum.
       destruct (pystr_eqb c cls && alist_has members n); cbn [negb bind]; [reflexivity|].
       exact (Htail unit (Ok tt)).
   Qed.
